@@ -149,16 +149,19 @@ class ShortOp(Op):
 
         value = copy.deepcopy(self.value.eval(state))
 
-        if self.op == '+=':
-            state.names[self.name] += value
-        elif self.op == '-=':
-            state.names[self.name] -= value
-        elif self.op == '*=':
-            state.names[self.name] *= value
-        elif self.op == '/=':
-            state.names[self.name] /= value
-        else:
-            raise ParserError(f'Unsupported short op: {self.op}')
+        try:
+            if self.op == '+=':
+                state.names[self.name] += value
+            elif self.op == '-=':
+                state.names[self.name] -= value
+            elif self.op == '*=':
+                state.names[self.name] *= value
+            elif self.op == '/=':
+                state.names[self.name] /= value
+            else:
+                raise ParserError(f'Unsupported short op: {self.op}')
+        except LookupError:
+            raise ParserError(f'Undefined variable {self.name}')
 
         return None
 
